@@ -650,6 +650,24 @@ impl<'tcx> TyGenContext<'_, 'tcx> {
                     None
                 };
 
+                // A struct parameter may be handed over as a plain object (the declared `Foo_obj`). When the
+                // returned value borrows from it, the edge arrays below read `param._fieldsForLifetimeX`,
+                // which only the class has: normalise the argument first.
+                if let ParamBorrowInfo::Struct(..) = param_borrow_kind {
+                    if let Some(id) = param.ty.unwrap_option().id() {
+                        let type_name = self.formatter.fmt_type_name(id);
+                        let name = &param_info.name;
+                        method_info.alloc_expressions.push(
+                            if matches!(param.ty, hir::Type::DiplomatOption(..)) {
+                                format!("{name} = ({name} === null || {name} === undefined) ? null : {type_name}._fromSuppliedValue(diplomatRuntime.internalConstructor, {name});")
+                            } else {
+                                format!("{name} = {type_name}._fromSuppliedValue(diplomatRuntime.internalConstructor, {name});")
+                            }
+                            .into(),
+                        );
+                    }
+                }
+
                 let struct_borrow_info =
                     if let ParamBorrowInfo::Struct(param_info) = param_borrow_kind {
                         Some(super::converter::StructBorrowContext {
